@@ -236,6 +236,12 @@ class Vector():
 			rep = _safe_sortable_list(list(x))
 			return Vector._hash_element(tuple(rep))
 
+		if isinstance(x, dict):
+			# Equal dicts hash alike whatever their insertion order (the repr() fallback
+			# below depended on it): hash the items as an unordered collection
+			items = [(Vector._hash_element(k), Vector._hash_element(v)) for k, v in x.items()]
+			return Vector._hash_element(("dict", len(items), tuple(sorted(items))))
+
 		if isinstance(x, (list, tuple)):
 			# Seed with the length and scramble the result: a bare polynomial is linear, so
 			# (0, 1), (1,) and 1 - and ((1, 2), 3), (1, 2, 3) and (1, 2, (3,)) - hashed alike
